@@ -67,6 +67,9 @@ func (o *opRec) collect(clock *stores.Clock) {
 }
 
 type ledger struct {
+	shared        chan error
+	sharedAnswers atomic.Int64
+
 	mu    sync.Mutex
 	ops   []*opRec
 	clock *stores.Clock
@@ -132,9 +135,31 @@ func (l *ledger) makeChan(o *opRec, kind string) {
 				}
 			}
 		}()
+	case "shared":
+		// one done channel handed to many batches (capacity 1 or 2), drained by one receiver that
+		// keeps receiving: every accepted batch that used it must produce one value on it
+		o.ch = l.shared
 	case "nil":
 		o.ch = nil
 	}
+}
+
+// startShared creates the shared done channel and its receiver.
+func (l *ledger) startShared(capacity int) {
+	l.shared = make(chan error, capacity)
+	l.wg.Add(1)
+	go func() {
+		defer l.wg.Done()
+		for {
+			select {
+			case <-l.shared:
+				l.sharedAnswers.Add(1)
+				time.Sleep(200 * time.Microsecond) // the caller is between receives for a moment
+			case <-l.stop:
+				return
+			}
+		}
+	}()
 }
 
 func (l *ledger) close() {
@@ -349,6 +374,7 @@ func runC05(rc *RunCtx, i int) {
 	// send lands. A context whose Done() is slow is a legal caller-side implementation.
 	holdingCtx := func(parent context.Context) context.Context { return &holdCtx{Context: parent, hold: hold} }
 
+	led.startShared(core.Pick(r, []int{1, 1, 2}))
 	desc := map[string]any{"case": env.w.Case, "shape": shape, "engine": env.spec, "fault_p": pf, "max_buffered_time": maxBufTime.String()}
 	producers := r.Range(2, 24)
 	desc["producers"] = producers
@@ -375,7 +401,10 @@ func runC05(rc *RunCtx, i int) {
 				pl.kind = "flush"
 			}
 			pl.batch = core.Pick(gr, []string{"normal", "normal", "normal", "normal", "empty", "nilrows", "unmarshalable"})
-			pl.ch = core.Pick(gr, []string{"buffered", "buffered", "unbuffered", "unbuffered-late", "nil"})
+			pl.ch = core.Pick(gr, []string{"buffered", "buffered", "unbuffered", "unbuffered-late", "nil", "shared"})
+			if i%4 == 2 && gr.Chance(0.7) {
+				pl.ch = "shared" // histories in which most batches report to one channel
+			}
 			prodPlans[p] = append(prodPlans[p], pl)
 			totalOps++
 		}
@@ -542,6 +571,9 @@ func runC05(rc *RunCtx, i int) {
 				}
 				continue
 			}
+			if o.Chan == "shared" {
+				continue // counted on the channel, below
+			}
 			n := int(o.nAns.Load())
 			if o.accepted && o.ch != nil && n != 1 {
 				return o, fmt.Sprintf("accepted batch has %d answers after Stop returned nil", n)
@@ -565,7 +597,24 @@ func runC05(rc *RunCtx, i int) {
 	if bad == nil {
 		bad, why = settle()
 	}
+	sharedAccepted := int64(0)
+	for _, o := range ops {
+		if o.Chan == "shared" && o.accepted {
+			sharedAccepted++
+		}
+	}
+	for t := 0; t < 120 && led.sharedAnswers.Load() != sharedAccepted; t++ {
+		time.Sleep(25 * time.Millisecond)
+	}
+	time.Sleep(10 * time.Millisecond)
+	sharedGot := led.sharedAnswers.Load()
+	rc.Res.Count("batches_on_shared_channel", sharedAccepted)
 	led.close()
+	if bad == nil && sharedGot != sharedAccepted {
+		desc["ops"] = viewOps(ops)
+		rc.Violate(i, "batch-not-answered-exactly-once", "", fmt.Sprintf("%d accepted batches were given the same done channel (capacity %d, a receiver kept receiving); it received %d values after Stop returned nil", sharedAccepted, cap(led.shared), sharedGot), desc)
+		return
+	}
 	accepted, answers := 0, 0
 	for _, o := range ops {
 		if o.accepted {
